@@ -1,7 +1,7 @@
 import SaModel.Lemmas.C02Container
 /-
 C02, `deserialize_any`: the mutual structural recursion over `Arr` / `ArrFields` / `ArrUFields` behind
-`Props.C02.read_any_decode` (moved here so that the typed-read lemmas can use it).
+`Props.C02.read_any_decode` (in a lemma file so that the typed-read lemmas can use it).
 -/
 namespace SaModel.Read
 open SaModel SaModel.Spec
